@@ -255,7 +255,22 @@ fn run_case(ctx: &Ctx, index: u64, rep: &mut Report) {
         }
         "cli" => {
             let g = prog::generate(&mut rng, &GenOpts { inputs: true, stops: false, rnd: true, kf_permille: 0, failure_permille: 100, ..GenOpts::default() });
-            let lines = g.prog.text_lines();
+            let mut lines = g.prog.text_lines();
+            // a third of the files are laid out the way people lay out listings: indented / right-aligned line numbers,
+            // trailing blanks (the same text is typed in the interactive session)
+            if rng.chance(1, 3) {
+                let width = lines.iter().map(|l| l.find(' ').unwrap_or(l.len())).max().unwrap_or(0);
+                let style = rng.below(3);
+                for l in lines.iter_mut() {
+                    let numlen = l.find(' ').unwrap_or(l.len());
+                    *l = match style {
+                        0 => format!("{}{}", " ".repeat(width - numlen + 1), l),
+                        1 => format!("\t{}", l),
+                        _ => format!("  {}   ", l),
+                    };
+                }
+                rep.count("cli.indented_files");
+            }
             let text = lines.join("\n") + "\n";
             // how many replies does a run consume?
             let model = exec::run_model(&g.prog, 0, &g.replies, 3000);
